@@ -2,7 +2,7 @@
 #   flavour A: AddressSanitizer, schedule points at wrapped libc/pthread calls
 #   flavour T: -fsanitize=thread instrumentation linked against OUR __tsan_* runtime (sim/tsan_abi.cpp)
 REPO ?= /repo
-B := build
+B ?= build
 CXX := clang++
 STD := -std=c++17
 OPT := -O1 -g -fno-omit-frame-pointer
